@@ -55,6 +55,11 @@ def run_c16(res, tier):
     import cli
     ast = load_ast()
     cli.run_cli(res, ast)
+    # "exits 1 ... when a parsing back end is given unbalanced brackets" and "reading stdin ... as the canonical run does"
+    # rest on the parser's acceptance rule and on the I/O layer's end-of-input mapping:
+    import front, iolim
+    front.run_parse_rules(res, ast)
+    iolim.run_io_map(res, ast)
     return {}
 
 
